@@ -44,6 +44,7 @@ def run(ctx):
     ctx.step(c13.uaf, ctx, "C05.uaf", [f for f in ctx.fb.functions() if f.file.endswith("/rcu_list.hpp")], floor=20,
              kinds=("erased", "deleted", "deallocated"))
     ctx.step(who, ctx)
+    ctx.step(common.raii_token_moves, ctx, "C05.balance", ["rcu_list.hpp", "rcu_guarded.hpp"])
     # loads: only erase's - links sampled before the mutex re-link stale (possibly already erased, soon freed) nodes into
     # the live list; an insertion's stale view loses an element but frees nothing early (C12's concern)
     ctx.step(common.rcu_writer_guard, ctx, "C05.wmutex", loads=("erase",))
@@ -100,6 +101,12 @@ def register(ctx, rid="C05.register", handles=True, record=True):
     n = 0
     for hc, lockfn, unlockfn in ((RG + "::read_handle", "rcu_read_lock", "rcu_read_unlock"),
                                  (RG + "::write_handle", "rcu_write_lock", "rcu_write_unlock")) if handles else ():
+        # what tells a handle that it is registered: the bool next to the guard, or the guard itself being engaged
+        tok = "this.m_accessed"
+        for r_ in fb.records(tmpl=hc):
+            if r_.field("m_accessed") is None and r_.field("m_guard") is not None and \
+                    r_.field("m_guard")["type"].replace("mutable ", "").startswith("std::optional<"):
+                tok = "this.m_guard"
         for f in fb.functions(rec=hc):
             if f.name in ("operator*", "operator->"):
                 n += 1
@@ -114,13 +121,22 @@ def register(ctx, rid="C05.register", handles=True, record=True):
                          and path(f, f.s(st["obj"])) == "this.m_guard"]
                 sets = [st for st in f.stmts.values() if st["k"] == "BinaryOperator" and st["op"] == "=" and
                         path(f, f.children(st)[0]) == "this.m_accessed"]
+                if tok == "this.m_guard":
+                    # a local guard registers and is then stored into the optional: that store is the record of it
+                    sets = [st for st in f.stmts.values() if st["k"] == "CXXOperatorCallExpr" and st.get("op") == "=" and len(st["args"]) == 2
+                            and path(f, f.s(st["args"][0])) == "this.m_guard"] + \
+                           [st for st in f.stmts.values() if st["k"] == "CXXMemberCallExpr" and st["callee"]["name"] == "emplace" and
+                            path(f, f.s(st["obj"])) == "this.m_guard"]
+                    srcs = {path(f, f.s(st["args"][1])) for st in sets if st["k"] == "CXXOperatorCallExpr"}
+                    calls = [st for st in f.stmts.values() if st["k"] == "CXXMemberCallExpr" and st["callee"]["name"] == lockfn
+                             and path(f, f.s(st["obj"])) in (srcs | {"this.m_guard"})]
                 nn = NonNull(f)
                 ok = len(calls) == 1 and path(f, f.s(calls[0]["args"][0])) == "*this.m_ptr" and \
-                    nn.known(f.pos_of(calls[0]), ("null", "this.m_accessed"))
+                    nn.known(f.pos_of(calls[0]), ("null", tok))
                 ctx.ob(rid, ok, f.where, "access() calls %s(*m_ptr) exactly when the handle is not yet registered" % lockfn,
                        "" if ok else "registration missing or not conditional on !m_accessed", fn=f.label, inst=f.qname)
-                ok = len(sets) == 1 and bool(calls) and (unwrap(f, f.children(sets[0])[1]) or {}).get("v") is True and \
-                    f.dominates(f.pos_of(calls[0]), f.pos_of(sets[0]))
+                ok = len(sets) == 1 and bool(calls) and f.dominates(f.pos_of(calls[0]), f.pos_of(sets[0])) and \
+                    (tok == "this.m_guard" or (unwrap(f, f.children(sets[0])[1]) or {}).get("v") is True)
                 ctx.ob(rid, ok, f.where, "access() records the registration after making it", "", fn=f.label, inst=f.qname)
             elif f.kind == "dtor":
                 calls = [st for st in f.stmts.values() if st["k"] == "CXXMemberCallExpr" and st["callee"]["name"] == unlockfn]
@@ -132,7 +148,7 @@ def register(ctx, rid="C05.register", handles=True, record=True):
                                "and an explicit unlock leaves it unregistered", rg[1], fn=f.label, inst=f.qname)
                         continue
                 nn = NonNull(f)
-                ok = len(calls) == 1 and nn.known(f.pos_of(calls[0]), ("nn", "this.m_accessed"))
+                ok = len(calls) == 1 and nn.known(f.pos_of(calls[0]), ("nn", tok))
                 ctx.ob(rid, ok, f.where, "the destructor unregisters exactly when the handle registered", "" if ok else
                        "unlock is not conditional on m_accessed (an unregistered handle would read an unset record pointer)",
                        fn=f.label, inst=f.qname)
@@ -140,7 +156,8 @@ def register(ctx, rid="C05.register", handles=True, record=True):
                 if calls:
                     b = f.pos_of(calls[0])[0]
                     preds = f.blocks[b].preds
-                    ok = len(preds) == 1 and path(f, f.s((f.blocks[preds[0]].term or {}).get("cond"))) == "this.m_accessed"
+                    from ..flow import operand
+                    ok = len(preds) == 1 and operand(f, f.s((f.blocks[preds[0]].term or {}).get("cond"))) == tok
                     ctx.ob(rid, ok, f.where, "a registered handle always unregisters in its destructor", "", fn=f.label, inst=f.qname)
     for f in (fb.functions(rec=RG) if handles else ()):
         if f.kind in ("ctor", "dtor"):
